@@ -122,7 +122,7 @@ func plan(c *vf.Ctx) []caseT {
 		}
 		// 6. path-argument operations: hostile arguments and arguments that run through planted symlinks
 		args := []string{"../outside/secret", "../../top", "%ABS%/secret", ".git/config", ".git/hooks/pre-commit", "d/x", "f", "u/inner/y", "u/x", "a/../../outside/secret", "a/../.git/config", ".GIT/config", "d", "u", "ul",
-			"..", ".", "", "a/.git/x", "..\\outside\\secret", "C:/x"}
+			"..", ".", "", "a/.git/x", "..\\outside\\secret", "C:/x", ".git/pwned", ".git/hooks/pwned", ".git/x"}
 		globs := []string{"*", "d/*", "u/*", "../outside/*", ".git/*", "../*", "%ABS%/*", "*/x", "u/inner/*"}
 		for _, a := range args {
 			for _, op := range []string{"add", "remove", "restore", "move-from", "move-to"} {
@@ -161,6 +161,18 @@ func plan(c *vf.Ctx) []caseT {
 }
 
 func nameClass(k caseT) string {
+	switch k.Struct {
+	case "benign":
+		return "benign"
+	case "planted", "path-arg":
+		return "planted:" + k.Plant
+	case "gitmodules-symlink":
+		return "gitmodules"
+	case "submodule-name", "submodule-path":
+		return "submodule"
+	case "symlink-swap", "dup-entry", "dup-entry-rev", "symlink-then-child":
+		return "symlink:" + k.Target
+	}
 	for _, h := range compNames {
 		if h.name == k.Name {
 			return h.class
@@ -319,6 +331,8 @@ func build(c *vf.Ctx, tmpl string, k caseT) (*built, error) {
 	mustWrite(filepath.Join(gitdir, "refs", "heads", "evil"), b.c2+"\n")
 	mustWrite(filepath.Join(gitdir, "HEAD"), "ref: refs/heads/master\n")
 	mustWrite(filepath.Join(gitdir, "hooks", "pre-commit"), "#!/bin/sh\nexit 0\n")
+	mustWrite(filepath.Join(gitdir, "hooks", "x"), "#!/bin/sh\nexit 0\n") // reachable as d/x through a planted d -> .git/hooks
+	mustWrite(filepath.Join(gitdir, "x"), "victim\n")                     // reachable as u/x through a planted u -> .git
 	cfg := "[core]\n\trepositoryformatversion = 0\n\tfilemode = true\n\tbare = false\n"
 	if k.NTFS != "" {
 		cfg += "\tprotectNTFS = " + k.NTFS + "\n"
